@@ -264,6 +264,24 @@ def make_case(prop, tier, seed, i):
                 op["fault"] = {"kind": "abort", "frac": rng.random(), "wide": rng.random() < 0.4,
                                "exc": weighted(rng, [("RecursionError", 6), ("MemoryError", 3), ("KeyboardInterrupt", 1)])}
         ops.append(op)
+    # bias: an 'extended metadata' history - one kept executor serves LocalDataset-style translations, most of the
+    # earlier ones naming a docker image, the last one mostly not (what the earlier ones found must not reach it)
+    tr = [o for o in ops if o["op"] == "translate"]
+    if len(tr) >= 2 and rng.random() < 0.06:
+        b = tr[-1]["backend"]
+        ops.insert(0, {"op": "new", "slot": 7, "backend": b})
+        for o in tr:
+            if o["backend"] != b:
+                continue
+            o["slot"], o["ld"] = 7, True
+            q = o["query"]
+            has = any(m.get("metadata_type") == "docker" for _, m in q["md"])
+            if not has and rng.random() < (0.6 if o is not tr[-1] else 0.2):
+                m = rng.choice(["docker_a", "docker_b"])
+                pos = len(q["steps"]) - 1 if q["steps"][-1][0] == "AsROOTTTree" else rng.randrange(len(q["steps"]) + 1)
+                q["md"] = q["md"] + [[pos, pools.METADATA[m][0]]]
+                q["md_names"] = q["md_names"] + [m]
+        cfg["focus_ext_md"] = True
     return {"engine": NAME, "prop": prop, "seed": seed, "run": i, "cfg": cfg, "ops": ops}
 
 
